@@ -214,31 +214,32 @@ def _judge(ck, path, label, bads, tier, extra=None):
                 art["args"] = [ev.get("sp"), ev.get("mf"), str(ev.get("cfg"))]
             rp = ck.replay_file(name + ".json", json.dumps(art, indent=1))
             ck.violation(key, _describe(ev, clause, bads), rp)
-    ck.add("trace_events_validated", len(events))
+    ck.add("trace_events_validated", sum(e.get("mult", 1) for e in events))
+    ck.add("trace_records_judged_by_tlc", len(events))
     return events, nbad
 
 
 def _nontrivial(events, counts):
     """How often the antecedent of each clause held (measurement only)."""
     for ev in events:
-        e, sp = ev.get("e"), ev.get("sp")
+        e, sp, m = ev.get("e"), ev.get("sp"), ev.get("mult", 1)
         if e == "Sample":
-            counts["sampleOnManifold"] += len(ev["sat"])
+            counts["sampleOnManifold"] += m * len(ev["sat"])
         elif e == "ValidSample":
-            counts["validSampleOnManifold"] += sum(ev["ret"])
+            counts["validSampleOnManifold"] += m * sum(ev["ret"])
         elif e == "Interp":
-            counts["interpOnManifold"] += len(ev["sat"])
+            counts["interpOnManifold"] += m * len(ev["sat"])
         elif e == "Geo":
             if sp in ("PJ", "AT") and ev["ok"] == 1 and ev["n"] >= 2:
-                counts["geoStatesOnManifold"] += 1
-                counts["geoStepBound"] += 1
-                counts["geoEndsNearTarget"] += 1
+                counts["geoStatesOnManifold"] += m
+                counts["geoStepBound"] += m
+                counts["geoEndsNearTarget"] += m
             if sp == "TB" and ev["ok"] == 1 and ev["unsat"] > 0:
-                counts["tbGeodesicExempt"] += 1
+                counts["tbGeodesicExempt"] += m
         elif e == "Motion":
-            counts["motionNeedsGeodesic"] += ev["cm"]
+            counts["motionNeedsGeodesic"] += m * ev["cm"]
         elif e == "PlannerPath":
-            counts["pathVerticesOnManifold"] += len(ev["sat"])
+            counts["pathVerticesOnManifold"] += m * len(ev["sat"])
 
 
 def run(tier):
@@ -271,7 +272,7 @@ def run(tier):
     replay_bad = 0
     if summ:
         ck.add("evaluations", summ["runs"] + summ["derived_calls"])
-        for k in ("cases", "runs", "derived_calls", "bindings"):
+        for k in ("cases", "runs", "derived_calls", "bindings", "events", "distinct_records"):
             ck.set("replay_" + k, summ[k])
         ck.set("replay_exits_matched", summ["exits_matched"])
         ck.set("replay_interpolate_branches", summ["interp_branches"])
@@ -451,6 +452,24 @@ def selftest():
     acc, prefix, res = validate_trace("spaces/ConstrainedContractTrace", p, json_sink=rows.append)
     good = acc and not [r for r in rows if "line" in r]
     print("selftest %-30s %s" % ("tb-geodesic-exempt", "ok" if good else "WRONG"))
+    ok = ok and good
+    # a wrong expectation in a model case must show up as drift of the replay (and only there)
+    rows = []
+    small = dict(Kinds='{"PJ", "AT", "TB"}', MaxT=3, DSet="{1}", LSet="{4}", JBack=1, JFwd=1, RSet="{1}", MCSet="{0}", TDen=4)
+    res = run_tlc("spaces/Geodesic", cfg=_cfg("selftest", small, MODEL_INVARIANTS), workers=1, timeout=600, json_sink=rows.append)
+    rows = [r for r in rows if "kind" in r and "exit" in r]
+    cp, tp = os.path.join(d, "cases.ndjson"), os.path.join(d, "trace.ndjson")
+    vlib.write_ndjson(cp, rows)
+    rc, out, err = _run_binary([binary, "replay", cp, tp], timeout=600)
+    clean = _lines(out, "SUMMARY")[0]["drift"]
+    for k in ("PJ", "AT", "TB"):
+        c = next(r for r in rows if r["kind"] == k and len(r["geo"]) >= 3)
+        c["geo"][1] += 1
+    vlib.write_ndjson(cp, rows)
+    rc, out, err = _run_binary([binary, "replay", cp, tp], timeout=600)
+    summ = _lines(out, "SUMMARY")[0]
+    good = clean == 0 and summ["drift"] == 3 * summ["bindings"] and not res.violated
+    print("selftest %-30s %s (drift %d -> %d)" % ("wrong-model-expectation", "ok" if good else "NOT DETECTED", clean, summ["drift"]))
     ok = ok and good
     shutil.rmtree(d, ignore_errors=True)
     return 0 if ok else 1
